@@ -57,6 +57,15 @@ CONSTANTS
   MaxBatch,   \* how many requests may arrive together in one request step
   \* @type: Bool;
   Hist,       \* TRUE: keep the request log (history variables reqlog, parkedAt); FALSE: leave them empty
+  \* @type: Set(Int);
+  Reps,       \* how often the one request of a pipelined request step may be repeated back to back (1 = once)
+  \* @type: Bool;
+  CountHist,  \* TRUE: count the requests per code (hcount); FALSE: leave the counter at 0
+  \* @type: Bool;
+  GenBug,     \* FALSE: the design.  TRUE: a WRONG design in which the release rule reads the history counter modulo
+              \* GenMod (a wrapping generation number); exists only to show that TLC then refutes P_C20
+  \* @type: Int;
+  GenMod,
   \* @type: Set(Str);
   Deliveries, \* how the requests of a request step are delivered: subset of {"single", "pipelined", "fragmented"}
   \* @type: Bool;
@@ -81,12 +90,17 @@ VARIABLES
   parkedAt,   \* Len(reqlog) at the moment a waiter parked
   \* @type: Int;
   nreq,       \* number of request steps so far
-  \* @type: { op: Str, ws: Set(Str), cs: Set(Int), dl: Str, rel: Set(Str), n: Int, pan: Bool };
+  \* @type: Int -> Int;
+  hcount,     \* history: how many requests with a code have arrived so far.  The design never reads it: how a
+              \* request acts on the waiters does not depend on how many requests came before
+  \* @type: Str -> Int;
+  seen,       \* used by the GenBug variant only: hcount modulo GenMod when the waiter parked
+  \* @type: { op: Str, ws: Set(Str), cs: Set(Int), dl: Str, rep: Int, rel: Set(Str), n: Int, pan: Bool };
   last        \* label of the last step
 
 state == <<via, reg, called, waiting, released, returned>>
-hist  == <<reqlog, parkedAt, nreq>>
-vars  == <<via, reg, called, waiting, released, returned, reqlog, parkedAt, nreq, last>>
+hist  == <<reqlog, parkedAt, nreq, hcount, seen>>
+vars  == <<via, reg, called, waiting, released, returned, reqlog, parkedAt, nreq, hcount, seen, last>>
 
 NoCode  == -1
 InRange == Codes \cap (0 .. (TableSize - 1))    \* the explored codes that have an entry in the table
@@ -98,14 +112,25 @@ AllOf(wt)  == UNION {wt[c] : c \in InRange}
 HitOf(wt, cs) == UNION {wt[c] : c \in cs \cap InRange}
 \* @type: (Int -> Set(Str), Set(Int)) => (Int -> Set(Str));
 Clear(wt, cs) == [c \in InRange |-> IF c \in cs THEN {} ELSE wt[c]]
-Hit(cs)    == HitOf(waiting, cs)
+\* history counter after k more requests of every code in cs
+\* @type: (Set(Int), Int) => (Int -> Int);
+Bump(cs, k) == IF CountHist THEN [c \in InRange |-> IF c \in cs THEN hcount[c] + k ELSE hcount[c]] ELSE hcount
+\* who is woken by requests with the codes cs: everybody parked on them.  (GenBug: only those whose remembered
+\* generation is below the new one - wrong as soon as the counter wraps.)
+\* @type: (Set(Int), Int -> Int) => Set(Str);
+Rel(cs, hc) == IF GenBug THEN {w \in HitOf(waiting, cs) : (hc[reg[w]] % GenMod) > seen[w]} ELSE HitOf(waiting, cs)
+\* @type: (Set(Int), Int -> Int) => (Int -> Set(Str));
+Keep(cs, hc) == [c \in InRange |-> IF c \in cs THEN waiting[c] \ Rel(cs, hc) ELSE waiting[c]]
+\* @type: (Str, Int, Int -> Int) => (Str -> Int);
+See(w, c, hc) == IF GenBug /\ InR(c) THEN [seen EXCEPT ![w] = hc[c] % GenMod] ELSE seen
 Done       == released \cup returned
 Own        == IF via THEN {WaitCode} ELSE {}      \* the request a registration itself is
 
 Log(x)  == IF Hist THEN Append(reqlog, x) ELSE reqlog
 Mark(w, lg) == IF Hist THEN [parkedAt EXCEPT ![w] = Len(lg)] ELSE parkedAt
 
-LD(op, ws, cs, dl, rel, n) == [op |-> op, ws |-> ws, cs |-> cs, dl |-> dl, rel |-> rel, n |-> n, pan |-> FALSE]
+LR(op, ws, cs, dl, k, rel, n) == [op |-> op, ws |-> ws, cs |-> cs, dl |-> dl, rep |-> k, rel |-> rel, n |-> n, pan |-> FALSE]
+LD(op, ws, cs, dl, rel, n) == LR(op, ws, cs, dl, IF cs = {} THEN 0 ELSE 1, rel, n)
 L(op, ws, cs, rel, n) == LD(op, ws, cs, IF cs = {} THEN "none" ELSE "single", rel, n)
 
 Init == /\ via \in Vias
@@ -113,70 +138,79 @@ Init == /\ via \in Vias
         /\ called = {} /\ released = {} /\ returned = {}
         /\ waiting = [c \in InRange |-> {}]
         /\ reqlog = <<>> /\ parkedAt = [w \in Waiters |-> 0] /\ nreq = 0
+        /\ hcount = [c \in InRange |-> 0] /\ seen = [w \in Waiters |-> 0]
         /\ last = L("init", {}, {}, {}, 0)
 
 Call(w, c) ==
   /\ SplitReg /\ reg[w] = NoCode
   /\ reg' = [reg EXCEPT ![w] = c]
-  /\ waiting' = Clear(waiting, Own)
-  /\ released' = released \cup Hit(Own) \cup (IF InR(c) THEN {} ELSE {w})
+  /\ hcount' = Bump(Own, 1)
+  /\ waiting' = Keep(Own, hcount')
+  /\ released' = released \cup Rel(Own, hcount') \cup (IF InR(c) THEN {} ELSE {w})
   /\ called' = IF InR(c) THEN called \cup {w} ELSE called
   /\ reqlog' = IF via THEN Log(Own) ELSE reqlog
-  /\ UNCHANGED <<via, returned, parkedAt, nreq>>
-  /\ last' = L("call", {w}, {}, Hit(Own) \cup (IF InR(c) THEN {} ELSE {w}), Cardinality(AllOf(waiting')))
+  /\ UNCHANGED <<via, returned, parkedAt, nreq, seen>>
+  /\ last' = L("call", {w}, {}, Rel(Own, hcount') \cup (IF InR(c) THEN {} ELSE {w}), Cardinality(AllOf(waiting')))
 
 Park(w) ==
   /\ w \in called
   /\ called' = called \ {w}
   /\ waiting' = [waiting EXCEPT ![reg[w]] = @ \cup {w}]
   /\ parkedAt' = Mark(w, reqlog)
-  /\ UNCHANGED <<via, reg, released, returned, reqlog, nreq>>
+  /\ seen' = See(w, reg[w], hcount)
+  /\ UNCHANGED <<via, reg, released, returned, reqlog, nreq, hcount>>
   /\ last' = L("park", {w}, {}, {}, Cardinality(AllOf(waiting')))
 
 Register(w, c) ==
   /\ ~SplitReg /\ reg[w] = NoCode
   /\ reg' = [reg EXCEPT ![w] = c]
-  /\ LET w1 == Clear(waiting, Own) IN
+  /\ hcount' = Bump(Own, 1)
+  /\ LET w1 == Keep(Own, hcount') IN
      waiting' = IF InR(c) THEN [w1 EXCEPT ![c] = @ \cup {w}] ELSE w1
-  /\ released' = released \cup Hit(Own) \cup (IF InR(c) THEN {} ELSE {w})
+  /\ released' = released \cup Rel(Own, hcount') \cup (IF InR(c) THEN {} ELSE {w})
   /\ reqlog' = IF via THEN Log(Own) ELSE reqlog
   /\ parkedAt' = Mark(w, reqlog')
+  /\ seen' = See(w, c, hcount')
   /\ UNCHANGED <<via, called, returned, nreq>>
-  /\ last' = L("reg", {w}, {}, Hit(Own) \cup (IF InR(c) THEN {} ELSE {w}), Cardinality(AllOf(waiting')))
+  /\ last' = L("reg", {w}, {}, Rel(Own, hcount') \cup (IF InR(c) THEN {} ELSE {w}), Cardinality(AllOf(waiting')))
 
-Requests(cs, dl) ==
+\* k > 1: the one request of the step is sent k times back to back (a long history of the code in one step)
+Requests(cs, dl, k) ==
   /\ cs # {} /\ Cardinality(cs) <= MaxBatch /\ nreq < MaxReq
-  /\ waiting' = Clear(waiting, cs)
-  /\ released' = released \cup Hit(cs)
+  /\ (k > 1) => (dl = "pipelined" /\ Cardinality(cs) = 1)
+  /\ hcount' = Bump(cs, k)
+  /\ waiting' = Keep(cs, hcount')
+  /\ released' = released \cup Rel(cs, hcount')
   /\ reqlog' = Log(cs) /\ nreq' = nreq + 1
-  /\ UNCHANGED <<via, reg, called, returned, parkedAt>>
-  /\ last' = LD("request", {}, cs, dl, Hit(cs), Cardinality(AllOf(waiting')))
+  /\ UNCHANGED <<via, reg, called, returned, parkedAt, seen>>
+  /\ last' = LR("request", {}, cs, dl, k, Rel(cs, hcount'), Cardinality(AllOf(waiting')))
 
 \* a registration in flight while requests arrive: first = TRUE when w parked before the requests with
 \* its code were broadcast (then it is released with the others), FALSE when it parked after them
 Race(w, c, cs, first) ==
-  /\ ~SplitReg /\ reg[w] = NoCode /\ cs # {} /\ Cardinality(cs) <= MaxBatch /\ nreq < MaxReq
+  /\ ~SplitReg /\ ~GenBug /\ reg[w] = NoCode /\ cs # {} /\ Cardinality(cs) <= MaxBatch /\ nreq < MaxReq
   /\ (first => c \in cs \cap InRange)
+  /\ hcount' = Bump(Own \cup cs, 1)
   /\ reg' = [reg EXCEPT ![w] = c]
-  /\ LET w1 == Clear(waiting, Own \cup cs)
+  /\ LET w1 == Keep(Own \cup cs, hcount')
          out == ~InR(c) \/ first IN
      /\ waiting' = IF out THEN w1 ELSE [w1 EXCEPT ![c] = @ \cup {w}]
-     /\ released' = released \cup Hit(Own \cup cs) \cup (IF out THEN {w} ELSE {})
-     /\ last' = L("race", {w}, cs, Hit(Own \cup cs) \cup (IF out THEN {w} ELSE {}), Cardinality(AllOf(waiting')))
+     /\ released' = released \cup Rel(Own \cup cs, hcount') \cup (IF out THEN {w} ELSE {})
+     /\ last' = L("race", {w}, cs, Rel(Own \cup cs, hcount') \cup (IF out THEN {w} ELSE {}), Cardinality(AllOf(waiting')))
   /\ reqlog' = (IF Hist THEN (IF via THEN Append(reqlog, Own) ELSE reqlog) \o <<cs>> ELSE reqlog) /\ nreq' = nreq + 1
   /\ parkedAt' = Mark(w, reqlog')
-  /\ UNCHANGED <<via, called, returned>>
+  /\ UNCHANGED <<via, called, returned, seen>>
 
 Return(w) ==
   /\ w \in released
   /\ released' = released \ {w} /\ returned' = returned \cup {w}
-  /\ UNCHANGED <<via, reg, called, waiting, reqlog, parkedAt, nreq>>
+  /\ UNCHANGED <<via, reg, called, waiting, reqlog, parkedAt, nreq, hcount, seen>>
   /\ last' = L("return", {w}, {}, {}, Cardinality(AllOf(waiting)))
 
 Batches == {cs \in SUBSET Codes : cs # {} /\ Cardinality(cs) <= MaxBatch}
 Next == \/ \E w \in Waiters, c \in Codes : Call(w, c) \/ Register(w, c)
         \/ \E w \in Waiters : Park(w) \/ Return(w)
-        \/ \E cs \in Batches, dl \in Deliveries : Requests(cs, dl)
+        \/ \E cs \in Batches, dl \in Deliveries, k \in Reps : Requests(cs, dl, k)
         \/ \E w \in Waiters, c \in Codes, cs \in Batches, first \in BOOLEAN : Race(w, c, cs, first)
 
 Fair == \A w \in Waiters : WF_vars(Park(w)) /\ WF_vars(Return(w))
@@ -194,6 +228,7 @@ C20_Step ==
   /\ ~e.pan                                                    \* no code makes Wait, Broadcast or ServeAgent crash
   /\ e.op \in {"call", "reg", "race", "request", "park", "return"}
   /\ e.dl \in {"none", "single", "pipelined", "fragmented"}   \* however the requests were delivered, what follows is the same
+  /\ e.rep \in Nat                   \* ... however often the request was repeated, and whatever came before (hcount is not read)
   \* everybody parked on a code that arrives is released, all together, nobody of them stays
   /\ HitOf(waiting, Arrived) \subseteq (released' \cup returned')
   /\ \A c \in InRange \cap Arrived : waiting'[c] \subseteq New
@@ -228,6 +263,7 @@ TypeOK == /\ via \in BOOLEAN
           /\ called \subseteq Waiters /\ released \subseteq Waiters /\ returned \subseteq Waiters
           /\ waiting \in [InRange -> SUBSET Waiters]
           /\ nreq \in 0 .. MaxReq
+          /\ hcount \in [InRange -> Nat] /\ seen \in [Waiters -> Nat]
 Where(w) == (IF w \in called THEN 1 ELSE 0) + (IF w \in released THEN 1 ELSE 0) + (IF w \in returned THEN 1 ELSE 0)
             + Cardinality({c \in InRange : w \in waiting[c]})
 \* a waiter is in exactly one place; it is parked only on the entry of its own code; codes outside the
@@ -239,6 +275,9 @@ Partition == \A w \in Waiters :
 \* "released by the NEXT request with that code": no request with its code has arrived since a parked waiter parked
 NextRequest == \A c \in InRange : \A w \in waiting[c] :
                  \A i \in (parkedAt[w] + 1) .. Len(reqlog) : c \notin reqlog[i]
+
+\* the counter counts: at least one per logged arrival of the code (more when a request was repeated)
+CountsLog == (CountHist /\ Hist) => \A c \in InRange : hcount[c] >= Cardinality({i \in DOMAIN reqlog : c \in reqlog[i]})
 
 \* liveness under weak fairness of Park and Return
 P_LiveReleased == \A w \in Waiters : (w \in released) ~> (w \in returned)
